@@ -168,6 +168,28 @@ func (c Case) template() string {
 		return "<" + c.Elem + " " + c.Attr + `="{{range .L}}{{$.V}}x{{end}}">`
 	case "condcontent":
 		return "{{if .C}}<" + c.Elem + ">{{else}}<" + c.Elem2 + ">{{end}}{{.V}}"
+	case "cmtcontent":
+		// a comment in front of the action does not change whose content this is
+		return "<" + c.Elem + "><!-- c -->{{.V}}</" + c.Elem + ">"
+	case "suffix":
+		// static text after the action: a partial value as well
+		return "<" + c.Elem + pre + " " + c.Attr + `="{{.V}}x">`
+	case "slashsep":
+		// "/" separates attributes like white space
+		return "<" + c.Elem + pre + "/" + c.Attr + `="{{.V}}">`
+	case "slashsep2":
+		return "<" + c.Elem + pre + " data-x/" + c.Attr + `="{{.V}}">`
+	case "wssplit":
+		// the white space between two attribute names comes from a branch: data-x A="..." or data-xA="..."
+		return "<" + c.Elem + " data-x{{if .C}} {{end}}" + c.Attr + `="{{.V}}">`
+	case "namesplit":
+		// the attribute name is completed by the text after an empty template node
+		k := len(c.Attr) / 2
+		return "<" + c.Elem + " " + c.Attr[:k] + "{{if .C}}{{end}}" + c.Attr[k:] + `="{{.V}}">`
+	case "tagsplit":
+		// the tag name is completed by a branch
+		k := (len(c.Elem) + 1) / 2
+		return "<" + c.Elem[:k] + "{{if .C}}" + c.Elem[k:] + "{{end}} " + c.Attr + `="{{.V}}">`
 	}
 	panic("pos " + c.Pos)
 }
@@ -238,6 +260,24 @@ func judge(cls string, c Case, p probe, out string, err error, bc, bd bool) stri
 		}
 		return fmt.Sprintf("class %s: an action that follows the static text \"x\" from the second loop iteration on must be refused, probe %s gave %q", cls, p.name, out)
 	}
+	if strings.HasPrefix(cls, "Suffix:") {
+		// <E A="{{.V}}x">: in enumerated contexts a static partial value must be refused; unlisted positions stay
+		// refused; for the other classes the suffix makes no difference that this check judges
+		cls = cls[len("Suffix:"):]
+		if err != nil {
+			return ""
+		}
+		switch cls {
+		case "Rejected":
+			return fmt.Sprintf("position not in the reviewed policy, but probe %s was accepted: output %q", p.name, out)
+		case "AsyncEnum", "DirEnum", "LoadingEnum", "TargetEnum":
+			return fmt.Sprintf("class %s: static partial value (suffix \"x\") must be refused, probe %s gave %q", cls, p.name, out)
+		}
+		if own, ok := typedOnly[cls]; ok && p.kind != own {
+			return fmt.Sprintf("class %s is typed-only, but probe %s (not a %s value) was accepted: output %q", cls, p.name, own, out)
+		}
+		return ""
+	}
 	partialStatic := ""
 	if strings.HasPrefix(cls, "Partial:") {
 		// {{if}}{{else}}STATIC{{end}}{{.V}} rendered with the static branch: a static partial value
@@ -280,12 +320,15 @@ func judge(cls string, c Case, p probe, out string, err error, bc, bd bool) stri
 		elem = c.Elem2
 	}
 
+	if c.Pos == "tagsplit" && !bc {
+		elem = c.Elem[:(len(c.Elem)+1)/2]
+	}
 	if st.Name != asciiLower(elem) {
 		return fmt.Sprintf("output %q: first tag is %q, want %q", out, st.Name, asciiLower(elem))
 	}
 	want := unicodex.Coerce(p.s)
 	want = strings.ReplaceAll(strings.ReplaceAll(want, "\r\n", "\n"), "\r", "\n")
-	if c.Pos == "content" || c.Pos == "condcontent" {
+	if c.Pos == "content" || c.Pos == "condcontent" || c.Pos == "cmtcontent" {
 		// text run up to the end tag (or end of output)
 		text, raw := "", ""
 		idx := 1
@@ -312,6 +355,9 @@ func judge(cls string, c Case, p probe, out string, err error, bc, bd bool) stri
 	if (c.Pos == "condattr" && !bc) || (c.Pos == "condboth" && !bd) {
 		attr = c.Attr2
 	}
+	if c.Pos == "wssplit" && !bc {
+		attr = "data-x" + c.Attr
+	}
 	var av *htmltok.Attr
 	for i := range st.Attrs {
 		if st.Attrs[i].Name == asciiLower(attr) && !st.Attrs[i].Dropped {
@@ -321,6 +367,9 @@ func judge(cls string, c Case, p probe, out string, err error, bc, bd bool) stri
 	nattrs := 1
 	if c.Rel != "" {
 		nattrs = 2
+	}
+	if c.Pos == "slashsep2" || c.Pos == "wssplit" && bc {
+		nattrs++
 	}
 	if av == nil || len(st.Attrs) != nattrs || len(r.Tokens) != 1 || r.Final.State != "Data" {
 		return fmt.Sprintf("probe %s broke the tag structure: output %q", p.name, out)
@@ -417,9 +466,23 @@ func classOf(c Case, bc, bd bool) string {
 		}
 	}
 	switch c.Pos {
-	case "content", "condcontent":
+	case "wssplit":
+		if !bc {
+			attr = "data-x" + c.Attr
+		}
+		return attrClass(elem, attr, c.Rel)
+	case "tagsplit":
+		if !bc {
+			elem = c.Elem[:(len(c.Elem)+1)/2]
+		}
+		return attrClass(elem, attr, c.Rel)
+	case "suffix":
+		return "Suffix:" + attrClass(elem, attr, c.Rel)
+	}
+	switch c.Pos {
+	case "content", "condcontent", "cmtcontent":
 		return contentClass(elem)
-	case "dq", "sq", "partial", "condelem", "condattr", "condboth", "condattrempty":
+	case "dq", "sq", "partial", "condelem", "condattr", "condboth", "condattrempty", "slashsep", "slashsep2", "namesplit":
 		return attrClass(elem, attr, c.Rel)
 	case "rangepartial":
 		return "Range:" + attrClass(elem, attr, c.Rel)
@@ -448,7 +511,7 @@ func check(c Case) evid.Outcome {
 	type br struct{ c, d bool }
 	branches := []br{{true, true}}
 	switch c.Pos {
-	case "condelem", "condattr", "condcontent", "condattrempty", "condpartial":
+	case "condelem", "condattr", "condcontent", "condattrempty", "condpartial", "wssplit", "namesplit", "tagsplit":
 		branches = []br{{true, true}, {false, true}}
 	case "condboth":
 		branches = []br{{true, true}, {true, false}, {false, true}, {false, false}}
@@ -512,12 +575,21 @@ func tableCases() []Case {
 				cs = append(cs, Case{Pos: "content", Elem: ev})
 			}
 			cs = append(cs, Case{Pos: "tagsuffix", Elem: ev}, Case{Pos: "attrname", Elem: ev})
+			if !names.VoidElements[e] && contentClass(e) != "RCDATA" {
+				// (inside title / textarea "<!--" is text, not a comment)
+				cs = append(cs, Case{Pos: "cmtcontent", Elem: ev})
+			}
 		}
 	}
 	// every element-specific row and every global attribute on every listed element, all positions
 	for _, a := range as {
 		for _, e := range es {
-			for _, pos := range []string{"dq", "sq", "unquoted", "partial"} {
+			for _, pos := range []string{"dq", "sq", "unquoted", "partial", "suffix", "slashsep"} {
+				cs = append(cs, Case{Pos: pos, Elem: e, Attr: a})
+			}
+		}
+		for _, e := range []string{"a", "div", "img", "link", "script", "input", "iframe", "foo"} {
+			for _, pos := range []string{"slashsep2", "wssplit", "namesplit", "tagsplit"} {
 				cs = append(cs, Case{Pos: pos, Elem: e, Attr: a})
 			}
 		}
@@ -703,7 +775,7 @@ func fixName(n string, attr bool) string {
 }
 
 func gen(t *rapid.T) Case {
-	pos := rapid.SampledFrom([]string{"content", "dq", "dq", "sq", "unquoted", "partial", "tagsuffix", "attrname", "attrsuffix", "condelem", "condattr", "condcontent", "condboth", "condattrempty", "condpartial", "rangepartial", "dq-link"}).Draw(t, "pos")
+	pos := rapid.SampledFrom([]string{"content", "dq", "dq", "sq", "unquoted", "partial", "tagsuffix", "attrname", "attrsuffix", "condelem", "condattr", "condcontent", "condboth", "condattrempty", "condpartial", "rangepartial", "dq-link", "cmtcontent", "suffix", "slashsep", "slashsep2", "wssplit", "namesplit", "tagsplit"}).Draw(t, "pos")
 	c := Case{Pos: pos, Elem: genName(t, "elem", false)}
 	if pos == "dq-link" {
 		c.Pos, c.Elem, c.Attr = "dq", rapid.SampledFrom([]string{"link", "LINK", "Link"}).Draw(t, "link"), rapid.SampledFrom([]string{"href", "HREF", "src", "hreflang", "data-href"}).Draw(t, "linkattr")
@@ -716,7 +788,7 @@ func gen(t *rapid.T) Case {
 		c.Rel = strings.Join(rs, rapid.SampledFrom([]string{" ", "  ", "\t", "\n"}).Draw(t, "relsep"))
 		return c
 	}
-	if pos != "content" && pos != "tagsuffix" && pos != "attrname" && pos != "condcontent" {
+	if pos != "content" && pos != "tagsuffix" && pos != "attrname" && pos != "condcontent" && pos != "cmtcontent" {
 		c.Attr = genName(t, "attr", true)
 	}
 	if pos == "condelem" || pos == "condcontent" || pos == "condboth" {
@@ -728,7 +800,10 @@ func gen(t *rapid.T) Case {
 	if pos == "condpartial" {
 		c.Attr2 = rapid.SampledFrom([]string{"x", "java", "/p/", "lt", "a b", "&amp;", "https://h/"}).Draw(t, "static")
 	}
-	if (pos == "content" || pos == "condcontent") && (names.VoidElements[asciiLower(c.Elem)] || names.VoidElements[asciiLower(c.Elem2)]) {
+	if pos == "cmtcontent" && contentClass(c.Elem) == "RCDATA" {
+		c.Pos = "content"
+	}
+	if (pos == "content" || pos == "condcontent" || pos == "cmtcontent") && (names.VoidElements[asciiLower(c.Elem)] || names.VoidElements[asciiLower(c.Elem2)]) {
 		c.Pos, c.Attr, c.Elem2 = "dq", "title", ""
 	}
 	return c
